@@ -209,7 +209,7 @@ where
                             if OSC_TERMINATORS.contains(&accu.as_str()) {
                                 break 'param_loop;
                             } else {
-                                param.push(accu.chars().next().unwrap());
+                                param.push_str(&accu);
                             }
                         }
 
@@ -340,7 +340,7 @@ where
                             if OSC_TERMINATORS.contains(&accu.as_str()) {
                                 break 'param_loop;
                             } else {
-                                param.push(accu.chars().next().unwrap());
+                                param.push_str(&accu);
                             }
                         }
 
